@@ -1,11 +1,227 @@
 import SageModel.Proto
+import SageModel.Model.C09
 
-/-! Driver ops for C09 (stub: no ops yet). -/
+/-! Driver ops for C09.
+
+```
+pep      := h:seq [n u32 mod…] opt(u32 nterm) opt(u32 cterm) u32(monoisotopic)
+ions pep                                        | [k u32…]×6 (a b c x y z)            | panic
+ionidx [k kind…] min_ion_index bucket [p pep…]  | [f (pep_ix u32)…] sorted by (pep_ix, bits) | panic
+ionconst tol_micro_da                           | u32×4   -(C+O), NH3, C+O-NH3+N+H, -NH3
+```
+
+`agree` is exact token equality everywhere (only `+ −` and negation are involved; the model performs
+them in the order of the Rust code at `Float32`).
+
+`spec` is evaluated on the IMPLEMENTATION's reply, in exact rational arithmetic on the exact values
+of the floats, with the rounding allowance `(4n+8)·2⁻²⁴·S` (`n` = sequence length, `S` = sum of the
+absolute values of everything that enters a series + 64): a bound on the accumulated rounding of at
+most `4n+8` f32 operations whose results are bounded by `S`, not a tuned tolerance. The a/c/x/z offsets
+are compared with hand-written reference masses of CO / NH3 (not with the regenerated constants),
+all within 1e-4 Da (plus the rounding allowance).
+-/
 namespace Sage.C09
 open Sage.Proto
 
+structure RawPep where
+  seq : List UInt8
+  mods : List Nat
+  nterm : Option Nat
+  cterm : Option Nat
+  mass : Nat
+
+def pRaw : P RawPep := do
+  let seq ← bytes
+  let mods ← list nat
+  let nterm ← opt nat
+  let cterm ← opt nat
+  let mass ← nat
+  pure { seq, mods, nterm, cterm, mass }
+
+def tableF : List Float32 := Sage.Gen.MONOISOTOPIC_bits.map f32OfBits
+def zeroF : Float32 := Float32.ofNat 0
+
+def RawPep.toF (r : RawPep) : Pep Float32 :=
+  { residues := r.seq.map (fun b => monoOf tableF zeroF b.toNat)
+    mods := r.mods.map f32OfBits
+    nterm := (r.nterm.map f32OfBits).getD zeroF      -- `unwrap_or_default()`
+    cterm := (r.cterm.map f32OfBits).getD zeroF
+    mass := f32OfBits r.mass }
+
+def allSome {α} : List (Option α) → Option (List α)
+  | [] => some []
+  | none :: _ => none
+  | some x :: xs => (allSome xs).map (x :: ·)
+
+/-- exact rational reading of the same peptide; `none` if a value is not finite -/
+def RawPep.toQ (r : RawPep) : Option (Pep Rat) := do
+  let residues ← allSome (r.seq.map (fun b => ratOfF32Bits (monoOf Sage.Gen.MONOISOTOPIC_bits 0 b.toNat)))
+  let mods ← allSome (r.mods.map ratOfF32Bits)
+  let nterm ← match r.nterm with | none => some 0 | some b => ratOfF32Bits b
+  let cterm ← match r.cterm with | none => some 0 | some b => ratOfF32Bits b
+  let mass ← ratOfF32Bits r.mass
+  pure { residues, mods, nterm, cterm, mass }
+
+def sumQ (l : List Rat) : Rat := l.foldl (· + ·) 0
+
+/-- `[0, x₀, x₀+x₁, …]` -/
+def prefixQ (l : List Rat) : List Rat :=
+  (l.foldl (fun (acc : List Rat × Rat) x => ((acc.2 + x) :: acc.1, acc.2 + x)) ([0], 0)).1.reverse
+
+/-- residue + modification masses, position by position (a missing trailing modification reads as 0;
+    only used where the real code does not read it) -/
+def pairsQ (p : Pep Rat) : List Rat :=
+  (List.range p.residues.length).map (fun i => p.residues.getD i 0 + p.mods.getD i 0)
+
+def allowance (p : Pep Rat) : Rat :=
+  let s := absQ p.nterm + absQ p.cterm + absQ p.mass + sumQ (p.residues.map absQ) + sumQ (p.mods.map absQ) + 64
+  ((4 * p.residues.length + 8 : Nat) : Rat) * s / 16777216
+
+def H2O_ref : Rat := 18010565 / 1000000
+
+def close (x y tol : Rat) : Bool := decide (absQ (x - y) ≤ tol)
+
+def renderSeries (ls : List (List Float32)) : String :=
+  " ".intercalate (ls.map (outList outF32))
+
+/-- first index in `0..n` at which `f` fails -/
+def firstBad (n : Nat) (f : Nat → Bool) : Option Nat := (List.range n).find? (fun i => !f i)
+
+def inDomain (r : RawPep) : Bool := r.seq.length ≥ 1 && r.mods.length + 1 ≥ r.seq.length
+
+/-- the executable spec for one peptide, on the six series the implementation returned (bit patterns) -/
+def specIons (r : RawPep) (impl : List (List Nat)) : String :=
+  let n := r.seq.length
+  match impl with
+  | [sa, sb, sc, sx, sy, sz] =>
+    if [sa, sb, sc, sx, sy, sz].any (fun s => s.length != n - 1) then "bad:series_length" else
+    match r.toQ, allSome ([sa, sb, sc, sx, sy, sz].map (fun s => allSome (s.map ratOfF32Bits))) with
+    | some p, some [qa, qb, qc, qx, qy, qz] =>
+      let al := allowance p
+      let pre := prefixQ (pairsQ p)          -- pre[i] = Σ_{j<i} (res_j + mod_j)
+      let total := pre.getD n 0
+      let at' (l : List Rat) (i : Nat) : Rat := l.getD i 0
+      -- b_i (iteration index i ↔ ordinal i+1) = nterm + first i+1 residues
+      match firstBad (n - 1) (fun i => close (at' qb i) (p.nterm + at' pre (i + 1)) al) with
+      | some i => s!"bad:b_def@{i}"
+      | none =>
+      match firstBad (n - 1) (fun i => close (at' qb i + at' qy i) p.mass (2 * al)) with
+      | some i => s!"bad:complement@{i}"
+      | none =>
+      -- y_def only when the mass is consistent (WellFormed) and every modification is present
+      let wf := r.mods.length ≥ n && close p.mass (H2O_ref + total + p.nterm + p.cterm) (al + 1/10000)
+      match (if wf then firstBad (n - 1) (fun i =>
+                close (at' qy i) (H2O_ref + p.cterm + (total - at' pre (i + 1))) (2 * al + 1/10000)) else none) with
+      | some i => s!"bad:y_def@{i}"
+      | none =>
+      match firstBad (n - 1) (fun i => close (at' qa i) (at' qb i - CO_ref) (2 * al + 1/10000)) with
+      | some i => s!"bad:offset_a@{i}"
+      | none =>
+      match firstBad (n - 1) (fun i => close (at' qc i) (at' qb i + NH3_ref) (2 * al + 1/10000)) with
+      | some i => s!"bad:offset_c@{i}"
+      | none =>
+      match firstBad (n - 1) (fun i => close (at' qx i) (at' qy i + XOFF_ref) (2 * al + 1/10000)) with
+      | some i => s!"bad:offset_x@{i}"
+      | none =>
+      match firstBad (n - 1) (fun i => close (at' qz i) (at' qy i - NH3_ref) (2 * al + 1/10000)) with
+      | some i => s!"bad:offset_z@{i}"
+      | none => "ok"
+    | _, _ => "na"     -- a non-finite value somewhere: the arithmetic clauses do not apply
+  | _ => "bad:shape"
+
+def pSix : P (List (List Nat)) := listN (list nat) 6
+
+def lePair (a b : Nat × Nat) : Bool := a.1 < b.1 || (a.1 == b.1 && a.2 ≤ b.2)
+
+def renderFrags (l : List (Nat × Nat)) : String :=
+  " ".intercalate (toString l.length :: l.map (fun f => s!"{f.1} {f.2}"))
+
+def bitsOf (l : List (Nat × Float32)) : List (Nat × Nat) := l.map (fun f => (f.1, f.2.toBits.toNat))
+
+/-- the executable spec of the index content on the implementation's fragment list -/
+def specIdx (kinds : List Kind) (minIdx : Nat) (raws : List RawPep) (impl : List (Nat × Nat)) : String :=
+  let np := raws.length
+  -- 1. every fragment is tagged with an existing peptide
+  if impl.any (fun f => f.1 ≥ np) then "bad:peptide_index_out_of_range" else
+  -- 2. per peptide: as many fragments as there are (kind, ordinal) pairs with min_ion_index < ordinal < n
+  let countBad := (List.range np).find? (fun i =>
+    let n := (raws.getD i ⟨[], [], none, none, 0⟩).seq.length
+    (impl.filter (fun f => f.1 == i)).length != kinds.length * (n - 1 - minIdx))
+  match countBad with
+  | some i => s!"bad:count@pep{i}"
+  | none =>
+  -- 3./4. in exact arithmetic: nothing but the defined ions, and all of them
+  let arith : Option String := (List.range np).findSome? (fun i =>
+    let r := raws.getD i ⟨[], [], none, none, 0⟩
+    let mine := (impl.filter (fun f => f.1 == i)).map (fun f => ratOfF32Bits f.2)
+    match r.toQ, allSome mine with
+    | some p, some ms =>
+      let n := r.seq.length
+      let al := 2 * allowance p + 1/1000
+      let wanted : List Rat := kinds.flatMap (fun kind =>
+        ((List.range n).filter (fun o => decide (minIdx < o))).map (fun o => ionDef constsQ kind p o))
+      if ms.any (fun m => !wanted.any (fun w => close m w al)) then some s!"bad:nothing_else@pep{i}"
+      else if wanted.any (fun w => !ms.any (fun m => close m w al)) then some s!"bad:all_present@pep{i}"
+      else none
+    | _, _ => none)
+  match arith with
+  | some s => s
+  | none =>
+  -- 5. bit-exact: the multiset is the by-ordinal selection from the series
+  let want := (bitsOf (specFragments constsF kinds minIdx (raws.map RawPep.toF))).mergeSort lePair
+  if want != impl then "bad:content" else "ok"
+
+def pIdxReply : P (List (Nat × Nat)) := list (do let i ← nat; let m ← nat; pure (i, m))
+
+def constPep : RawPep := { seq := [97, 97], mods := [0, 0], nterm := none, cterm := none, mass := 0 }
+
 def handle (op : String) (args impl : List String) : Option Reply :=
   match op with
+  | "ions" => do
+    let r ← run pRaw args
+    let p := r.toF
+    let model : String :=
+      if panics p then "panic"
+      else renderSeries (Kind.all.map (fun kind => ions constsF kind p))
+    let spec : String :=
+      if !inDomain r then "na"                                     -- outside the property's quantifier
+      else if impl == ["panic"] then "bad:panic_in_domain"
+      else match run pSix impl with
+        | none => "bad:shape"
+        | some six => specIons r six
+    pure (exact model (" ".intercalate impl) spec)
+  | "ionconst" => do
+    let tol ← run nat args
+    let p := constPep.toF
+    let first (kind : Kind) : Float32 := (ions constsF kind p).headD zeroF
+    let model := " ".intercalate ([Kind.a, Kind.c, Kind.x, Kind.z].map (fun k => outF32 (first k)))
+    let t : Rat := (tol : Rat) / 1000000
+    let spec : String :=
+      match (run (listN nat 4) impl).bind (fun l => allSome (l.map ratOfF32Bits)) with
+      | some [a, c, x, z] =>
+        if !close (-a) CO_ref t then "bad:co_reference"
+        else if !close c NH3_ref t then "bad:nh3_reference"
+        else if !close (-z) NH3_ref t then "bad:nh3_reference_z"
+        else if !close x XOFF_ref t then "bad:xoff_reference"
+        else "ok"
+      | _ => "bad:shape"
+    pure (exact model (" ".intercalate impl) spec)
+  | "ionidx" => do
+    let (kindNs, minIdx, _bucket, raws) ← run (do
+      let k ← list nat; let m ← nat; let b ← nat; let ps ← list pRaw; pure (k, m, b, ps)) args
+    let kinds ← allSome (kindNs.map Kind.ofNat?)
+    let peps := raws.map RawPep.toF
+    let model : String :=
+      match buildFragments? constsF kinds minIdx peps with
+      | none => "panic"
+      | some fr => renderFrags ((bitsOf fr).mergeSort lePair)
+    let spec : String :=
+      if !(kinds.isEmpty || raws.all inDomain) then "na"
+      else if impl == ["panic"] then "bad:panic_in_domain"
+      else match run pIdxReply impl with
+        | none => "bad:shape"
+        | some fr => specIdx kinds minIdx raws fr
+    pure (exact model (" ".intercalate impl) spec)
   | _ => none
 
 end Sage.C09
